@@ -523,6 +523,11 @@ func mergeCall(i *interpreter, caller *frame, callpos token.Pos, fn *ssa.Functio
 	for k := len(good) - 2; k >= 0; k-- {
 		res = me.mergeVal(good[k].pc, good[k].res, res)
 	}
+	if p, bad := res.(poison); bad {
+		// the whole result differs in shape between callee paths (e.g. a slice built by
+		// conditional appends): such a call cannot be if-converted
+		panic(engineAbort{"abort-merge", "result of " + fn.String() + " differs in shape between callee paths (" + p.why + ")"})
+	}
 	return res, true
 }
 
